@@ -45,6 +45,7 @@ type Arena struct {
 	mem    []byte
 	base   uintptr
 	next   uintptr
+	mapped uintptr // [0,mapped) has been made accessible in this case
 	mode   Mode
 	blocks map[uintptr]*Block
 	order  []*Block
@@ -56,36 +57,55 @@ type Arena struct {
 	OnMalloc  func(size int)
 	OnFree    func(p unsafe.Pointer)
 	exhausted bool
+	abandoned bool
 }
 
 var (
-	globalOnce sync.Once
-	global     *Arena
+	poolMu sync.Mutex
+	pool   []*Arena
 )
 
 const arenaBytes = 8 << 30
 
-// Get returns the process-wide arena, reset for a new case.
+// Get returns an arena (from the pool of released ones, or freshly mapped), reset
+// for a new case. Release it when the instance using it has been shut down.
 func Get(mode Mode) *Arena {
-	globalOnce.Do(func() {
+	poolMu.Lock()
+	var a *Arena
+	if n := len(pool); n > 0 {
+		a = pool[n-1]
+		pool = pool[:n-1]
+	}
+	poolMu.Unlock()
+	if a == nil {
 		mem, err := syscall.Mmap(-1, 0, arenaBytes, syscall.PROT_NONE,
 			syscall.MAP_ANON|syscall.MAP_PRIVATE|syscall.MAP_NORESERVE)
 		if err != nil {
 			panic(fmt.Sprintf("guard: mmap failed: %v", err))
 		}
-		global = &Arena{mem: mem, base: uintptr(unsafe.Pointer(&mem[0]))}
-		fmt.Printf("GUARD-ARENA base=%#x end=%#x\n", global.base, global.base+arenaBytes)
-	})
-	global.Reset(mode)
-	return global
+		a = &Arena{mem: mem, base: uintptr(unsafe.Pointer(&mem[0]))}
+		fmt.Printf("GUARD-ARENA base=%#x end=%#x\n", a.base, a.base+arenaBytes)
+	}
+	a.Reset(mode)
+	return a
 }
 
-// Abandon leaks the current arena (its blocks stay as they are, forever) so that
-// goroutines of a case that could not be shut down cleanly never see their
-// memory recycled. The next Get maps a fresh region.
-func Abandon() {
-	globalOnce = sync.Once{}
-	global = nil
+// Release returns the arena to the pool; its memory is recycled by the next Get.
+// Only call once nothing can touch its blocks any more (after Close returned).
+func (a *Arena) Release() {
+	if a.abandoned {
+		return
+	}
+	a.Reset(a.mode)
+	poolMu.Lock()
+	pool = append(pool, a)
+	poolMu.Unlock()
+}
+
+// Abandon leaks the arena (its blocks stay as they are, forever) so that goroutines
+// of a case that could not be shut down cleanly never see their memory recycled.
+func (a *Arena) Abandon() {
+	a.abandoned = true
 }
 
 // Range returns the address range of the arena.
@@ -95,12 +115,13 @@ func (a *Arena) Range() (lo, hi uintptr) { return a.base, a.base + uintptr(len(a
 func (a *Arena) Reset(mode Mode) {
 	a.mu.Lock()
 	defer a.mu.Unlock()
-	if a.next > 0 {
-		region := a.mem[:a.next]
+	if a.mapped > 0 {
+		region := a.mem[:a.mapped]
 		syscall.Mprotect(region, syscall.PROT_NONE)
 		syscall.Madvise(region, syscall.MADV_DONTNEED)
 	}
 	a.next = 0
+	a.mapped = 0
 	a.mode = mode
 	a.blocks = map[uintptr]*Block{}
 	a.order = a.order[:0]
@@ -117,6 +138,8 @@ func fill(b []byte, v byte) {
 	}
 }
 
+const chunk = 4 << 20 // fresh memory is made accessible this many bytes at a time
+
 // Malloc implements skiplist.MallocFn.
 func (a *Arena) Malloc(n int) unsafe.Pointer {
 	if cb := a.OnMalloc; cb != nil {
@@ -129,17 +152,20 @@ func (a *Arena) Malloc(n int) unsafe.Pointer {
 		pages = 1
 	}
 	span := pages * pageSize
-	if a.next+span+pageSize > uintptr(len(a.mem)) {
+	if a.next+span+chunk > uintptr(len(a.mem)) {
 		a.exhausted = true
 		panic("guard: arena exhausted")
 	}
 	off := a.next
-	a.next += span + pageSize // one inaccessible page between blocks
-	region := a.mem[off : off+span]
-	if err := syscall.Mprotect(region, syscall.PROT_READ|syscall.PROT_WRITE); err != nil {
-		panic(fmt.Sprintf("guard: mprotect: %v", err))
+	a.next += span
+	for a.next > a.mapped {
+		if err := syscall.Mprotect(a.mem[a.mapped:a.mapped+chunk], syscall.PROT_READ|syscall.PROT_WRITE); err != nil {
+			panic(fmt.Sprintf("guard: mprotect: %v", err))
+		}
+		a.mapped += chunk
 	}
-	fill(region, 0xAB)
+	region := a.mem[off : off+span]
+	fill(region, 0xAB) // reliance on zeroed memory shows; the tail doubles as an overrun canary
 	b := &Block{Addr: a.base + off, Size: n, span: span, Live: true, Seq: len(a.order), AllocOp: atomic.LoadInt64(&a.Op)}
 	a.blocks[b.Addr] = b
 	a.order = append(a.order, b)
@@ -170,8 +196,14 @@ func (a *Arena) Free(p unsafe.Pointer) {
 	b.FreeOp = op
 	off := addr - a.base
 	region := a.mem[off : off+b.span]
+	for _, c := range region[b.Size:] {
+		if c != 0xAB {
+			a.bad = append(a.bad, BadFree{Addr: addr, Kind: "overrun", Op: op, Seq: b.Seq})
+			break
+		}
+	}
 	if a.mode == Trap {
-		fill(region, 0xDD)
+		fill(region[:b.Size], 0xDD)
 		syscall.Mprotect(region, syscall.PROT_NONE)
 	} else {
 		fill(region, 0)
